@@ -4,9 +4,18 @@ Bounded-exhaustive enumeration of Gaussian signatures (every interleaving of 0-2
 of shapes (), (2,), (2,2), total dimension <= 5) x ranks x operations; every execution on the real library is
 compared with the dense closed forms of ``fv.ref.gauss13`` (plain numpy on the dense (P, eta, c) triple).
 
-The funsor side of every case is a short *program text* (``program(case)``) that is exec'd on the real library; the
-stand-alone snippet of a violation is exactly that text preceded by literal parameter arrays, so the artefact and
-the executed program cannot drift apart.
+The funsor side of every case is a short *program text* (``Plan.setup`` + ``Plan.body``, public API only) that is
+exec'd on the real library; the stand-alone snippet of a violation is exactly that text preceded by the import
+header, so the artefact and the executed program cannot drift apart.
+
+Case kinds: marg (one-step marginal of every subset, evaluated after / before / between pointwise evaluation of the
+kept inputs), marg2 (two steps, both orders), lognorm, plate (reduce add, optionally followed by a marginal), mix
+(mixture reduce over integer and real inputs), contract (Contraction of two Gaussians / mixtures), intvar / intgauss
+(Integrate rules), moment (moment matching: mass, mean, covariance read off a quadratic fitted through the lattice
+values of the result), neg (too little information: the operation must not return numbers).
+
+Completion is demanded (a raise or a lazy result is a violation ``<site>:declined``) for marg, marg2, lognorm, plate
+on inputs with rank >= dim; everywhere else a raise / lazy result is a decline.
 """
 import itertools
 import re
